@@ -29,6 +29,18 @@ import itertools
 DIRECTIVE_KEYS = ('maximum_iterations', 'parallel_iterations')
 
 
+def directive_text(site):
+  if site % 3 == 2:
+    return '%d, maximum_iterations=%d' % (1000 + site, 2000 + site)       # first positional parameter = parallel_iterations
+  return '%s=%d' % (DIRECTIVE_KEYS[site % 3], 1000 + site)
+
+
+def directive_expected(site):
+  if site % 3 == 2:
+    return {'parallel_iterations': 1000 + site, 'maximum_iterations': 2000 + site}
+  return {DIRECTIVE_KEYS[site % 3]: 1000 + site}
+
+
 class Menu(object):
   def __init__(self, name, simple, compound, vars_=('x', 'y'), depth=3, for_targets=('i',), ret=('x', None),
                raise_in_handler=True):
@@ -44,7 +56,7 @@ class Menu(object):
 
 VAR_KINDS = ('W', 'R', 'RW', 'AUG', 'DEL', 'AND', 'OR', 'NOT', 'IFEXP', 'CMP', 'COMP', 'DEFR', 'DEFW', 'DEFIFW', 'LAM', 'CALL',
              'CALLK', 'CALLT', 'DEF2R', 'DEF2W', 'CALLP', 'CALLP0')
-NOVAR_KINDS = ('TUP', 'ATTR', 'SUB', 'RATTR', 'RSUB', 'raise', 'S', 'PASS', 'LAMBDA', 'CALLG', 'CLASS', 'FAIL', 'DEFN', 'ALIAS', 'DEFT', 'MKP', 'BINDP', 'SUBPA', 'SUBPI')
+NOVAR_KINDS = ('TUP', 'ATTR', 'SUB', 'RATTR', 'RSUB', 'raise', 'S', 'PASS', 'LAMBDA', 'CALLG', 'CLASS', 'FAIL', 'DEFN', 'ALIAS', 'DEFT', 'MKP', 'BINDP', 'SUBPA', 'SUBPI', 'RETK', 'BINDJ', 'SUBJ')
 
 
 def simple_stmts(menu, loop, fin):
@@ -154,6 +166,11 @@ def stmts(k, menu, d, loop, fin):
           for c in nblocks(b2, menu, d - 1, loop, fin):
             for e in nblocks(m - a - b2, menu, d - 1, loop, fin):
               yield ('tryelse', b, c, e)
+  if 'tryK' in comp:
+    for a in range(1, m):
+      for b in nblocks(a, menu, d - 1, loop, fin):
+        for c in nblocks(m - a, menu, d - 1, loop, fin):
+          yield ('tryK', b, c)
   if 'trybareelse' in comp:
     for a in range(1, m - 1):
       for b2 in range(1, m - a):
@@ -212,8 +229,9 @@ class Render(object):
 
   def loop_directive(self, ind, site):
     if self.directives:
-      # the keyword alternates between loops, so that arguments leaking from one directive into another are visible
-      self.emit(ind, 'setopts(%s=%d)' % (DIRECTIVE_KEYS[site % 2], 1000 + site))
+      # the form alternates between loops (one keyword / the other keyword / first argument positional + a keyword), so
+      # that arguments leaking from one directive into another, or dropped positional ones, are visible
+      self.emit(ind, 'setopts(%s)' % directive_text(site))
 
   def new(self):
     self.site += 1
@@ -281,6 +299,12 @@ class Render(object):
       e(ind + 1, 'return %s' % s[1])
     elif k == 'LAM':
       e(ind, 'g = lambda: %s * 100 + %d' % (s[1], self.new()))
+    elif k == 'RETK':        # the return expression itself raises (KeyError), implicitly
+      e(ind, "return d['missing%d']" % self.new())
+    elif k == 'BINDJ':       # a name used as the index of a subscript store
+      e(ind, "j = 'k'")
+    elif k == 'SUBJ':
+      e(ind, 'd[j] = d[j] * 100 + %d' % self.new())
     elif k == 'BINDP':       # an object variable first bound here ...
       e(ind, 'p = zo')
     elif k == 'SUBPA':       # ... whose attribute / element is the index of a subscript store
@@ -339,6 +363,11 @@ class Render(object):
       e(ind, 'try:')
       self.block(s[1], ind + 1)
       e(ind, 'except E2:')
+      self.block(s[2], ind + 1)
+    elif k == 'tryK':
+      e(ind, 'try:')
+      self.block(s[1], ind + 1)
+      e(ind, 'except KeyError:')
       self.block(s[2], ind + 1)
     elif k == 'tryelse':
       e(ind, 'try:')
@@ -504,7 +533,7 @@ def stmt_reductions(s):
     for r in reductions(s[2]):
       if r:
         yield (('for', s[1], r) + s[3:],)
-  elif k == 'tryO':
+  elif k in ('tryO', 'tryK'):
     yield s[1]
     for j in (1, 2):
       for r in reductions(s[j]):
@@ -549,8 +578,8 @@ def skeleton(body):
                                     '|else:' + skeleton(s[3]) if len(s) > 3 and s[3] else ''))
     elif k == 'with':
       out.append('with(%s)' % skeleton(s[1]))
-    elif k == 'tryO':
-      out.append('tryO(%s|%s)' % (skeleton(s[1]), skeleton(s[2])))
+    elif k in ('tryO', 'tryK'):
+      out.append('%s(%s|%s)' % (k, skeleton(s[1]), skeleton(s[2])))
     elif k in ('tryelse', 'try2h', 'trybe'):
       out.append('%s(%s|%s|%s)' % (k, skeleton(s[1]), skeleton(s[2]), skeleton(s[3])))
     elif k == 'def':
